@@ -40,10 +40,14 @@ def _code(op):
     return c
 
 
-def run_el(op, *args):
+RANGE_FLAGS = {"": {}, "M": {"range_start": 0}, "m": {"range_end": 0}, "Ṁ": {"range_start": 0, "range_end": 0}}
+
+
+def run_el(op, *args, flags=""):
+    """flags: the M / m / Ṁ flags move the bounds of IMPLICIT ranges only; explicit elements must not notice"""
     harness.reset_globals()
     stack = list(args)
-    r = harness.exec_py(_code(op), stack, harness.fresh_ctx(), budget=5_000_000)
+    r = harness.exec_py(_code(op), stack, harness.fresh_ctx(**RANGE_FLAGS[flags]), budget=5_000_000)
     if r.exc is not None:
         raise r.exc
     return stack
@@ -166,14 +170,14 @@ _REP_TAG = {"int": "", "sym": ":sympy-integer", "mixed": ":int-and-sympy-integer
 _REP_MSG = {"int": "", "sym": " (argument given as sympy Integer, as a literal would be)", "mixed": " (first argument a Python int, second a sympy Integer)"}
 
 
-def check_monad(op, n, rep="int"):
+def check_monad(op, n, rep="int", flags=""):
     """rep: how the argument is represented - a Python int (inputs, results of builtins) or a sympy Integer (literals)."""
     lo, ref, _ = MONADS[op]
     if n < lo:
         return None
     want = ref(n)
     try:
-        st_ = run_el(op, n if rep == "int" else sympy.Integer(n))
+        st_ = run_el(op, n if rep == "int" else sympy.Integer(n), flags=flags)
     except (harness.FuelExhausted, harness.Inconclusive):
         raise
     except Exception as e:  # noqa: BLE001
@@ -182,7 +186,9 @@ def check_monad(op, n, rep="int"):
         return (f"C17:{op}:stack", f"{n} {op} left {len(st_)} values")
     got = norm(st_[0], cap=50_000)
     if got != want:
-        return (f"C17:{op}:value" + _REP_TAG[rep], f"{n} {op} = {harness.jsonable(got)!r:.200}, the definition gives {harness.jsonable(want)!r:.200}" + _REP_MSG[rep])
+        return (f"C17:{op}:value" + _REP_TAG[rep] + (f":flag-{flags}" if flags else ""),
+                f"{n} {op} = {harness.jsonable(got)!r:.200}, the definition gives {harness.jsonable(want)!r:.200}" + _REP_MSG[rep]
+                + (f" (under the {flags} flag, which only moves implicit ranges)" if flags else ""))
     return None
 
 
@@ -228,6 +234,12 @@ def _do_n(rec, n, cls, ops=None, range_cap=3000, fact_cap=400):
             rec.case(key=(op, n, rep), nontrivial=n >= 2, cls=[cls, f"el {op}", f"argument as {rep}"])
             if r:
                 rec.fail(r[0], {"kind": "monad", "op": op, "n": n, "rep": rep}, r[1])
+        if n <= 40 or n % 97 == 0:
+            for fl in ("M", "m", "Ṁ"):
+                r = check_monad(op, n, "int", fl)
+                rec.case(key=(op, n, "int", fl), nontrivial=n >= 2, cls=[cls, f"el {op}", f"under flag {fl}"])
+                if r:
+                    rec.fail(r[0], {"kind": "monad", "op": op, "n": n, "rep": "int", "flags": fl}, r[1])
     if ops is None:
         for name in INVERSES:
             r = check_inverse(name, n)
@@ -363,7 +375,8 @@ def replay(case):
         if k == "monad" and case["op"] in MONADS and isinstance(case["n"], int) and case["n"] >= 0:
             if MONADS[case["op"]][2] in ("range", "small") and case["n"] > 3000:
                 return None
-            return check_monad(case["op"], case["n"], case.get("rep") if case.get("rep") in ("int", "sym") else "int")
+            return check_monad(case["op"], case["n"], case.get("rep") if case.get("rep") in ("int", "sym") else "int",
+                               case.get("flags") if case.get("flags") in RANGE_FLAGS else "")
         if k == "inverse" and case["name"] in INVERSES and isinstance(case["n"], int) and case["n"] >= 0:
             return check_inverse(case["name"], case["n"])
         if k == "dyad" and case["op"] in DYADS and all(isinstance(case[x], int) and case[x] >= 0 for x in "ab"):
